@@ -1,9 +1,9 @@
 package main
 
 import (
-	"go/types"
 	"fmt"
 	"go/token"
+	"go/types"
 	"strings"
 
 	"golang.org/x/tools/go/ssa"
@@ -484,7 +484,6 @@ func checkStreamingGaveUp(c *Ctx, r *Report) {
 		r.Bad("C05-R2", key, w.Pos(), "the handler starts the 200 event stream without (unconditionally) testing the recorder's status first")
 	}
 }
-
 
 var recorderStatusMemo map[*types.Var]bool
 
